@@ -48,6 +48,8 @@ static int errno_of(const char *s) {
     if (!strcmp(s, "EAGAIN")) return EAGAIN;
     if (!strcmp(s, "ETIMEDOUT")) return ETIMEDOUT;
     if (!strcmp(s, "EFBIG")) return EFBIG;
+    if (!strcmp(s, "EPIPE")) return EPIPE;
+    if (!strcmp(s, "ECONNRESET")) return ECONNRESET;
     return 0;
 }
 
